@@ -25,3 +25,29 @@ func (i *interpreter) globalSpecial(g *ssa.Global) (value, bool) {
 	return nil, false
 }
 
+
+// sort.Slice / sort.SliceStable: insertion sort over the interpreter slice,
+// calling the interpreted less function (symbolic answers fork).
+func sortSlice(fr *frame, a []value) value {
+	i := fr.i
+	e := a[0].(iface)
+	sl, ok := e.v.([]value)
+	if !ok {
+		panic(engineError{"sort.Slice on a non-slice"})
+	}
+	for x := 1; x < len(sl); x++ {
+		for y := x; y > 0; y-- {
+			r := call(i, fr, 0, a[1], []value{y, y - 1})
+			if !i.truth("sort.less", r) {
+				break
+			}
+			sl[y], sl[y-1] = sl[y-1], sl[y]
+		}
+	}
+	return nil
+}
+
+func init() {
+	externals["sort.Slice"] = sortSlice
+	externals["sort.SliceStable"] = sortSlice
+}
